@@ -204,6 +204,18 @@ func (sc *collection) doBuild(ctx context.Context) (Provider, error) {
 		}
 	}
 
+	// A consumer of a group depends on the node {Type, nil, Group}; make that node depend on every member,
+	// so that cycles through a group are detected and members are created before their consumers
+	for key, members := range sc.groups {
+		if err := g.AddProviderDeferred(newGroupNode(key, members)); err != nil {
+			return nil, &BuildError{
+				Phase:   "graph",
+				Details: fmt.Sprintf("failed to add group %q of %v", key.Group, formatType(key.Type)),
+				Cause:   err,
+			}
+		}
+	}
+
 	// Phase 2: Validate graph (cycles detected here, not per-add)
 	if err := g.DetectCycles(); err != nil {
 		return nil, &BuildError{
@@ -313,6 +325,27 @@ func (sc *collection) doBuild(ctx context.Context) (Provider, error) {
 
 	return p, nil
 }
+
+// groupNode represents a group in the dependency graph: it depends on every member of the group.
+type groupNode struct {
+	key     GroupKey
+	members []*reflection.Dependency
+}
+
+func newGroupNode(key GroupKey, members []*Descriptor) *groupNode {
+	node := &groupNode{key: key, members: make([]*reflection.Dependency, 0, len(members))}
+	for _, member := range members {
+		if member != nil {
+			node.members = append(node.members, &reflection.Dependency{Type: member.Type, Key: member.Key, Group: member.Group})
+		}
+	}
+	return node
+}
+
+func (n *groupNode) GetType() reflect.Type                     { return n.key.Type }
+func (n *groupNode) GetKey() any                               { return nil }
+func (n *groupNode) GetGroup() string                          { return n.key.Group }
+func (n *groupNode) GetDependencies() []*reflection.Dependency { return n.members }
 
 // AddModules applies one or more module configurations to the service collection.
 func (sc *collection) AddModules(modules ...ModuleOption) error {
